@@ -164,6 +164,8 @@ type c19Commit struct {
 	tnum             uint64
 	pcs              [][3]uint64 // id, blk, num
 	nv               int
+	labels           []int  // nested family only: hash label of every block (a permutation); nil otherwise
+	salt             uint64 // nested family only: mixed into the real headers, so that real hashes sort differently
 }
 
 func c19GenCommit(r *vu.RNG) c19Commit {
@@ -237,7 +239,10 @@ func c19GenCommit(r *vu.RNG) c19Commit {
 		noise = 0
 	}
 	for k := 0; k < noise; k++ {
-		switch r.Intn(6) {
+		switch r.Intn(7) {
+		case 6: // a non-member anywhere in the tree (beside the lowest precommit: its route cannot be proved)
+			b := all[r.Intn(len(all))]
+			c.pcs = append(c.pcs, [3]uint64{uint64(c.nv + r.Intn(2)), uint64(b), c.tree.num(b)})
 		case 0: // a vote below / beside the target
 			b := all[r.Intn(len(all))]
 			c.pcs = append(c.pcs, [3]uint64{uint64(r.Intn(c.nv)), uint64(b), c.tree.num(b)})
@@ -323,3 +328,132 @@ func (c c19Commit) pcString(sig func(i int) string) string {
 	return strings.Join(s, ",")
 }
 
+
+// c19GenNested: nested fork points below the precommit GHOST (the class of seeded/C19-m2, a defect
+// of the vote graph's merge-point search that a linear chain or a single level of forks never meets).
+//
+//	0 -- .. -- B -- .. -- P1 -- .. -- X1
+//	 \          \          \--- .. -- X2 (-- X3)
+//	  \          \--- .. -- P2 (-- Y)
+//	   \-- .. -- Z1      (\-- .. -- Z2)
+//
+// Votes only on the deep blocks X*, Y (one heavy voter), the side forks Z* and the base 0 (the
+// lowest precommit = the round base); never on the fork points B, P1. The GHOST is then a fork
+// point found by the merge-point search (B when the heavy voter weighs enough, else 0). Voter ids
+// are relabelled, hash labels permuted (part 1) / headers salted (parts 2, 3) so that the side
+// forks sort on both sides of B, and the listed order puts the side-fork votes first, the votes
+// under P1 before the vote under P2 (the other three orders of every case are the reverse and two
+// shuffles). Targets: B, P1, P2, 0 or any block. Headers: all routes, sometimes one missing.
+func c19GenNested(r *vu.RNG) c19Commit {
+	var c c19Commit
+	add := func(p int) int { c.tree.parents = append(c.tree.parents, p); return len(c.tree.parents) }
+	chain := func(from, n int) int {
+		for i := 0; i < n; i++ {
+			from = add(from)
+		}
+		return from
+	}
+	switch r.Intn(3) {
+	case 0:
+		c.tree.base = uint64(r.Intn(3))
+	case 1:
+		c.tree.base = 0xfffffff0 - uint64(r.Intn(8))
+	default:
+		c.tree.base = uint64(r.Intn(1000))
+	}
+	b := chain(0, 1+r.Intn(2))
+	p1 := chain(b, 1+r.Intn(2))
+	xs := []int{chain(p1, 1+r.Intn(2)), chain(p1, 1+r.Intn(2))}
+	if r.Chance(1, 3) {
+		xs = append(xs, chain(p1, 1))
+	}
+	p2 := chain(b, 1+r.Intn(2))
+	y := p2
+	if r.Chance(1, 2) {
+		y = chain(p2, 1)
+	}
+	var sides []int
+	for i, ns := 0, 1+r.Intn(2); i < ns; i++ {
+		sides = append(sides, chain(chain(0, 1), r.Intn(2)))
+	}
+	m := len(c.tree.parents) + 1
+	type vt struct {
+		w   uint64
+		blk int
+	}
+	var votes []vt
+	for _, z := range sides {
+		votes = append(votes, vt{1, z})
+	}
+	votes = append(votes, vt{1, 0})
+	for _, x := range xs {
+		votes = append(votes, vt{1, x})
+	}
+	heavy := uint64(len(xs) + r.Intn(2))
+	if r.Chance(2, 3) {
+		heavy = uint64(len(xs) + 1)
+	}
+	votes = append(votes, vt{heavy, y})
+	c.nv = len(votes)
+	// relabel the voters: vote i is cast by voter perm[i]; the weight list is shuffled as well
+	perm := c19Shuffle(r, c.nv)
+	items := make([]string, c.nv)
+	for i, v := range votes {
+		items[perm[i]] = fmt.Sprintf("%s:%s", vu.X(uint64(perm[i])), vu.X(v.w))
+	}
+	if r.Chance(1, 2) {
+		q := c19Shuffle(r, c.nv)
+		it2 := make([]string, c.nv)
+		for i, j := range q {
+			it2[i] = items[j]
+		}
+		items = it2
+	}
+	c.weights = strings.Join(items, ",")
+	for i, v := range votes {
+		c.pcs = append(c.pcs, [3]uint64{uint64(perm[i]), uint64(v.blk), c.tree.num(v.blk)})
+	}
+	if r.Chance(1, 3) { // the base vote somewhere else in the list
+		k := len(sides)
+		j := r.Intn(len(c.pcs))
+		c.pcs[k], c.pcs[j] = c.pcs[j], c.pcs[k]
+	}
+	if r.Chance(1, 6) { // a non-member / a duplicate on top
+		if r.Chance(1, 2) {
+			c.pcs = append(c.pcs, [3]uint64{uint64(c.nv + 1), uint64(y), c.tree.num(y)})
+		} else {
+			c.pcs = append(c.pcs, c.pcs[r.Intn(len(c.pcs))])
+		}
+	}
+	switch r.Intn(8) {
+	case 0, 1, 2, 3:
+		c.tblk = b
+	case 4:
+		c.tblk = p1
+	case 5:
+		c.tblk = p2
+	case 6:
+		c.tblk = 0
+	default:
+		c.tblk = r.Intn(m)
+	}
+	c.tnum = c.tree.num(c.tblk)
+	for blk := 1; blk < m; blk++ {
+		c.headers = append(c.headers, blk)
+	}
+	if r.Chance(1, 2) {
+		q := c19Shuffle(r, len(c.headers))
+		h2 := make([]int, len(c.headers))
+		for i, j := range q {
+			h2[i] = c.headers[j]
+		}
+		c.headers = h2
+	}
+	if r.Chance(1, 12) {
+		k := r.Intn(len(c.headers))
+		c.headers = append(c.headers[:k:k], c.headers[k+1:]...)
+	}
+	c.labels = c19Shuffle(r, m)
+	c.salt = 1 + r.U64()%0xffff
+	return c
+}
